@@ -1168,7 +1168,9 @@ class DiGraphLiveness(DiGraph):
         """
         Compute the liveness information for the digraph.
         """
-        todo = set(self.leaves())
+        # Start from every block: blocks which cannot reach a leaf (infinite
+        # loops) have live variables as well
+        todo = set(self.nodes())
         while todo:
             node = todo.pop()
             cur_block = self.blocks.get(node, None)
